@@ -10,12 +10,12 @@ from contracts import codec_common as K
 from contracts import varint_common as V
 
 LEVEL = 'proof'
-LEAN_LEMMAS = ['pow2_mono']
 TRUSTED = ['E-DATETIME: a datetime is an integer count of microseconds since 1970-01-01 UTC within years 1..9999; calendar.timegm(dt.utctimetuple()) is its floor seconds, dt.microsecond the remainder; timedelta(milliseconds=k) is exactly 1000k microseconds and datetime + timedelta adds or raises OverflowError (contracts/codec_common.py _stub_datetime; probed by the bounded timestamp stand-ins on the real library); date * 1e3 is real arithmetic (A-REAL)',
            'E-STRUCT', 'E-FLOAT', 'E-CODEC: str.encode/bytes.decode are inverse on encodable text', 'E-UUID', 'A-TYPES',
            'bounded dimension: collection sizes <= 3, tuple/UDT arity <= 3, vector dimension <= 3 are unrolled, not proved by induction on the size',
            'SetType: decoded through the list adapter here; sorting/deduplication of sortedset is C33',
            'structural induction over the type tree is a meta-argument over the discharged constructor obligations'] + V.LEMMAS
+LEAN_LEMMAS = V.LEAN_LEMMAS
 EXPLANATION = 'symbolic execution of the real serialize/deserialize pairs; constructors parametric in an uninterpreted element codec'
 
 for _c, _w, _s in K.FIXED_INTS:
